@@ -64,6 +64,8 @@ BOTH_VALUES = {  # probe -> (file value, GIT_CONFIG_PARAMETERS value, custom fea
     "max-line-distance": ("0.3", "0.5", "0.7", "0.25"),
 }
 
+DYNAMIC = ("dynamic",)   # a builtin default computed from other options: the oracle does not judge it
+
 # The oracle's own knowledge of the builtin features (from the manual / --help / reading the
 # feature modules), restricted to the probe options. value: text, or ("git", key, fallback).
 O_BUILTIN = {
@@ -72,14 +74,19 @@ O_BUILTIN = {
     "side-by-side": {"side-by-side": "true", "line-numbers-left-format": "│{nm:^4}│"},
     "hyperlinks": {"hyperlinks": "true"},
     "raw": {"file-style": "raw", "commit-style": "raw", "hunk-header-style": "raw", "zero-style": "normal",
-            "keep-plus-minus-markers": "true", "tabs": "0"},
+            "keep-plus-minus-markers": "true", "tabs": "0",
+            "minus-style": ("git", "color.diff.old", "red"), "minus-emph-style": ("git", "color.diff.old", "red")},
     "color-only": {"file-style": "raw", "commit-style": "raw", "hunk-header-style": "raw",
                    "keep-plus-minus-markers": "true", "tabs": "0"},
     "diff-highlight": {"file-style": "raw", "commit-style": ("git", "color.diff.commit", "raw"),
-                       "hunk-header-style": "raw", "zero-style": "normal"},
+                       "hunk-header-style": "raw", "zero-style": "normal",
+                       "minus-style": ("git", "color.diff.old", "red"),
+                       "minus-emph-style": DYNAMIC},     # `<minus-style> reverse`: not judged
+
     "diff-so-fancy": {"file-style": ("git", "color.diff.meta", "11"), "commit-style": ("git", "color.diff.commit", "raw"),
                       "hunk-header-style": ("git", "color.diff.frag", "file line-number bold syntax"),
-                      "zero-style": "normal"},
+                      "zero-style": "normal", "minus-style": ("git", "color.diff.old", "bold red"),
+                      "minus-emph-style": ("git", "color.diff-highlight.oldHighlight", "bold red 52")},
 }
 O_BUILTIN_CHILDREN = {"side-by-side": ["line-numbers"]}
 O_BUILTIN_NAMES = sorted(O_BUILTIN)
@@ -375,6 +382,8 @@ def o_value(cfg, o, order, inert, defaults, impl):
             return "custom", impl.render(o, sec[o])
         if f in O_BUILTIN and f not in inert and o in O_BUILTIN[f]:
             v = O_BUILTIN[f][o]
+            if v is DYNAMIC:
+                return "builtin-dynamic", None
             if isinstance(v, tuple):
                 v = git["other"].get(v[1], v[2])
             return "builtin", impl.render(o, v)
@@ -993,6 +1002,8 @@ def needed_renderings(cfgs):
             for b, tbl in O_BUILTIN.items():
                 if o in tbl:
                     v = tbl[o]
+                    if v is DYNAMIC:
+                        continue
                     if isinstance(v, tuple):
                         pairs.add((o, v[2]))
                         for t in other:
@@ -1024,6 +1035,25 @@ def evaluate(ctx, rep, cfgs, runs):
     rep.notes["flag_iteration"] = iteration
     if sorted(bnames) != O_BUILTIN_NAMES:
         rep.corr_case("opts.builtin-names", False, dict(model=bnames, oracle=O_BUILTIN_NAMES))
+    # guard against an incomplete oracle table (run #24: `minus-style` became a probe, the oracle's builtin
+    # tables did not list it): for every probe option, the oracle must know of exactly the builtin features whose
+    # generated table has that key. Only key presence is compared, never a value.
+    if mdl:
+        tk = mdl.ask(["opts.tablekeys"])[0]
+        if tk.startswith("ok "):
+            keys = {}
+            for part in unhxs(tk.split(" ")[1]).split(";"):
+                if ":" in part:
+                    f, ks = part.split(":", 1)
+                    keys[f] = set(ks.split(","))
+            used = {o for c in cfgs for o in c["probes"]}
+            gaps = sorted((f, o) for f in keys for o in used
+                          if (o in keys[f]) != (o in O_BUILTIN.get(f, {})))
+            rep.corr_case("opts.oracle-table-keys", not gaps, dict(
+                what="the oracle's builtin tables and the generated ones disagree on which builtin features set a "
+                     "probe option (harness defect, not a finding about delta)", gaps=gaps))
+            if gaps:
+                rep.notes["oracle_table_gaps"] = gaps
 
     # defaults and renderings, from the binary itself (command-line path)
     d = base_cfg()
@@ -1093,6 +1123,10 @@ def evaluate(ctx, rep, cfgs, runs):
             primary = oracle_expected(c, defaults, impl, primary_only=True)[0]
             admissible = None
             for ob in obs:
+                unjudged = {o for o, k in primary[1].items() if k == "builtin-dynamic"}
+                if unjudged:
+                    rep.count("oracle:probe-not-judged-dynamic-builtin-default")
+                    ob = {o: v for o, v in ob.items() if o not in unjudged}
                 exp = {o: v for o, v in primary[0].items() if o in ob}
                 if ob == exp:
                     continue
